@@ -149,3 +149,23 @@ UNITS["alias"] = {
         "C04": ["new", "try_from_u32_lossy"],
     },
 }
+
+
+# ------------------------------------------------------------------ Hypergeometric::new in VF mode (floats havocked)
+HYPER = "src/hypergeometric.rs"
+R13_neg_l = Rule("R13", "let lambda_l = -(($e).ln());", "let lambda_l = fneg(($e).ln());",
+                 "float unary minus (unsupported by Verus) routed through the prelude fn `fneg`; harmless where float values are havocked anyway")
+R13_neg_r = Rule("R13", "let lambda_r = -(($e).ln());", "let lambda_r = fneg(($e).ln());", "as above")
+R2_allow = Rule("R2", "#[allow($x)]", "", "attribute", count="*")
+
+UNITS["hypergeo"] = {
+    "name": "hypergeo",
+    "self_type": "Hypergeometric",
+    "template": os.path.join(HERE, "specs", "hypergeo.vspec.rs"),
+    "types": ["u64"], "quick_types": ["u64"],
+    "structs": {"Hypergeometric": {"file": HYPER, "fields": ["n1", "n2", "k", "offset_x", "sign_x", "sampling_method"]}},
+    "functions": {
+        "new": {"file": HYPER, "path": [r"^impl Hypergeometric$"], "name": "new", "rules": [R13_neg_l, R13_neg_r, R2_allow]},
+    },
+    "property_of": {"C04": ["new"], "C03": ["new"]},
+}
